@@ -83,6 +83,13 @@ fn main() {
     if args[1] == "C20" {
         std::process::exit(props::c20::main_c20(mode, file));
     }
+    // address-space limit: an engine that allocates without bound (seen with seeded faults) makes this process
+    // abort (reported by run.sh as an infrastructure exit, or as the violation already printed) instead of
+    // waking the kernel's OOM killer
+    unsafe {
+        let lim = libc::rlimit { rlim_cur: 52 << 30, rlim_max: 52 << 30 };
+        libc::setrlimit(libc::RLIMIT_AS, &lim);
+    }
     let code = match args[1].as_str() {
         "C01" => drive(props::c01::C01, mode, file),
         "C02" => drive(props::c02::C02, mode, file),
